@@ -26,12 +26,94 @@ def ty(eng, name):
     return ref_to_value(eng.mk_variant("Type", name, []))
 
 
+def _conc(eng, v, m):
+    """concrete Python / JSON form of a model value under the z3 model m (None: not concretisable)"""
+    v = models.deref(v)
+    if isinstance(v, bool):
+        return v
+    if isinstance(v, int):
+        return v
+    if is_sym(v):
+        x = m.eval(v, model_completion=True)
+        if z3.is_bool(x):
+            return z3.is_true(x)
+        return x.as_long()
+    if isinstance(v, StrM):
+        bs = [_conc(eng, b, m) for b in v.bytes]
+        try:
+            return bytes(bs).decode("utf-8")
+        except UnicodeDecodeError:
+            return None
+    if isinstance(v, (VecM, SliceV)):
+        return [_conc(eng, x, m) for x in v.items]
+    if isinstance(v, Opaque):
+        return None
+    if isinstance(v, Agg):
+        base = v.ty.split("::")[-1]
+        if base == "Value":
+            if v.variant == "Null":
+                return ("json", None)
+            if v.variant in ("Bool", "String"):
+                x = _conc(eng, v.fields[0], m)
+                return None if x is None else ("json", x)
+            if v.variant == "Number":
+                return ("json", _conc(eng, models.deref(v.fields[0]).fields[0], m))
+            if v.variant == "Array":
+                xs = [_conc(eng, x, m) for x in models.deref(v.fields[0]).items]
+                return None if any(x is None for x in xs) else ("json", [x[1] for x in xs])
+            return None
+        if base == "ArgValue":
+            if v.variant == "Int":
+                x = _conc(eng, v.fields[0], m)
+                w = 1 << 128
+                x = x - w if x >= (1 << 127) else x
+                return {"Int": str(x)}
+            if v.variant in ("Bool", "String"):
+                return {v.variant: _conc(eng, v.fields[0], m)}
+            if v.variant in ("Bytes", "Address"):
+                x = _conc(eng, v.fields[0], m)
+                return None if x is None or any(b is None for b in x) else {v.variant: x}
+            if v.variant == "UtxoRef":
+                u = models.deref(v.fields[0])
+                names = eng.tdef("UtxoRef", "struct", hint="core")[1][2]
+                return {"UtxoRef": {"txid": _conc(eng, u.fields[names.index("txid")], m), "index": _conc(eng, u.fields[names.index("index")], m)}}
+        return None
+    return None
+
+
+def native_outcome(value_json, tname):
+    import native
+    r = native.run([dict(cmd="from_json", value=value_json, type=tname)])[0]
+    if "ok" in r:
+        return ("ok", r["ok"])
+    return ("panic", None) if "panic" in r else ("err", None)
+
+
 def call_from_json(ctx, value, tname):
+    """runs the real from_json from MIR; registers the native replay of this very call: under a
+    counterexample model the concrete JSON value goes through the native binary and the native
+    outcome must be the outcome engine M computed (then the violated oracle carries over)"""
     eng = ctx.eng
+    state = dict(outcome=None)
+
+    def hook(m):
+        cv = _conc(eng, value, m)
+        if cv is None or state["outcome"] is None:
+            return None
+        kind, payload = state["outcome"]
+        want = (kind, _conc(eng, payload, m) if kind == "ok" else None)
+        if kind == "ok" and want[1] is None:
+            return None
+        got = native_outcome(cv[1], tname)
+        return got == want
+    ctx.replay_hook = hook
     try:
-        return models.deref(eng.call_fn(eng.fns["from_json"], [value, ty(eng, tname)]))
+        r = models.deref(eng.call_fn(eng.fns["from_json"], [value, ty(eng, tname)]))
+        state["outcome"] = ("ok", r.fields[0]) if r.variant == "Ok" else ("err", None)
+        return r
     except Panic as p:
         eng.stats.panic_paths += 1
+        state["outcome"] = ("panic", None)
         ctx.violation("from_json panicked: %s" % p.kind, site=p.site, shape="from_json panics")
         return None
 
